@@ -346,7 +346,7 @@ public:
     auto frame = WebSocketFrame::makeText(text);
     generateMaskKey(frame.maskKey);
     auto wire = frame.serialize(true); // client MUST mask
-    sendRawBytes(wire.data(), wire.size());
+    sendUnlessClosing(wire);
   }
 
   void sendBinary(const std::vector<std::uint8_t>& data)
@@ -355,7 +355,7 @@ public:
     auto frame = WebSocketFrame::makeBinary(data);
     generateMaskKey(frame.maskKey);
     auto wire = frame.serialize(true);
-    sendRawBytes(wire.data(), wire.size());
+    sendUnlessClosing(wire);
   }
 
   void sendPing(const std::vector<std::uint8_t>& payload = {})
@@ -364,7 +364,7 @@ public:
     auto frame = WebSocketFrame::makePing(payload);
     generateMaskKey(frame.maskKey);
     auto wire = frame.serialize(true);
-    sendRawBytes(wire.data(), wire.size());
+    sendUnlessClosing(wire);
   }
 
   void sendClose(std::uint16_t code = 1000, const std::string& reason = "")
@@ -376,6 +376,10 @@ public:
     auto frame = WebSocketFrame::makeClose(code, reason);
     generateMaskKey(frame.maskKey);
     auto wire = frame.serialize(true);
+    // Mark-and-send atomically w.r.t. sendText/sendBinary/sendPing, so that no
+    // data frame can be enqueued behind this close frame (RFC 6455 §5.5.1).
+    std::lock_guard<std::mutex> lock(_sendMutex);
+    _closeSent = true;
     sendRawBytes(wire.data(), wire.size());
   }
 
@@ -548,6 +552,10 @@ private:
     }
     _upgradeComplete.store(false);
     _closeEchoed.store(false); // re-arm the one-shot CLOSE echo for this connection
+    {
+      std::lock_guard<std::mutex> lock(_sendMutex);
+      _closeSent = false; // a fresh connection may carry data frames again
+    }
 
     // Register the global callbacks on the LOCAL transport. Each weak-captures
     // the client (NEVER an owning shared_ptr<Transport> of its own _transport —
@@ -1151,6 +1159,19 @@ private:
     }
   }
 
+  /// \brief Send a data/ping frame unless this endpoint has already sent its
+  /// close frame on the current connection. The check and the send are atomic
+  /// with sendClose() under _sendMutex (lock order: _sendMutex -> _transportMutex).
+  void sendUnlessClosing(const std::vector<std::uint8_t>& wire)
+  {
+    std::lock_guard<std::mutex> lock(_sendMutex);
+    if (_closeSent)
+    {
+      return; // drop: after a close frame no further data frames may be sent
+    }
+    sendRawBytes(wire.data(), wire.size());
+  }
+
   void sendRawBytes(const std::uint8_t* data, std::size_t len)
   {
     // Copy-then-invoke: snapshot the (transport,sessionId) pair under the lock as
@@ -1249,6 +1270,8 @@ private:
   // CLOSE is echoed, re-armed in doConnect() per connection. Replaces the dead
   // _state==CLOSING guard (CLOSING is never stored — it is a reserved state).
   std::atomic<bool> _closeEchoed{false};
+  std::mutex _sendMutex;    // makes "closeSent check + send" atomic with sendClose()
+  bool _closeSent = false;  // guarded by _sendMutex; reset per connection in doConnect()
 
   // Fragment reassembly (protected by _dataMutex)
   std::vector<std::uint8_t> _fragmentBuffer;
